@@ -43,6 +43,10 @@ def work(arg):
                 if len(new[i]) >= 2:
                     cut = r.randrange(1, len(new[i]))
                     new[i] = new[i][:cut] + " " + new[i][cut:]
+            elif op == "head1":
+                new[i] = new[i][:1]
+            elif op == "drop_last":
+                new[i] = new[i][:-1]
             elif op == "swap_next":
                 j = r.choice(sig)
                 new[i], new[j] = new[j], new[i]
